@@ -16,7 +16,7 @@ import ast
 from typing import Any, Callable, Dict, List, Optional, Sequence
 
 from .core import ClassInfo, Module, Repo, dotted, unparse
-from .fold import Abstract, Folder, Sym, Unfoldable
+from .fold import Abstract, FoldKeyError, Folder, Sym, Unfoldable
 
 
 class Raised(Exception):
@@ -75,7 +75,11 @@ class Evaluator(Folder):
             self.steps += 1
             if self.steps > self.max_steps:
                 raise Unfoldable("step limit")
-            self._stmt(st)
+            try:
+                self._stmt(st)
+            except FoldKeyError as ex:
+                # a failed lookup in a literal table / list is what the evaluated program would see as KeyError / IndexError
+                raise Raised(ex.kind, st)
 
     def _assign(self, t: ast.AST, v: Any) -> None:
         if isinstance(t, ast.Name):
@@ -490,3 +494,51 @@ def module_call_hook(ctx: Any, module: Any, evaluate: Sequence[str], log: List[A
         return NotImplemented
 
     return hook
+
+
+def ctor_hook(ctx: Any, base_hook: Any = None, only: Optional[Sequence[str]] = None) -> Any:
+    """`K(args)` where K is a class of the repository: the abstract instance its constructor builds (Raised propagates)"""
+
+    def hook(e: ast.expr, f: Folder) -> Any:
+        if base_hook is not None:
+            r = base_hook(e, f)
+            if r is not NotImplemented:
+                return r
+        if isinstance(e, ast.Call) and isinstance(e.func, (ast.Name, ast.Attribute)) and (dotted(e.func) or "").split(".")[0] not in f.env:
+            try:
+                k = ctx.repo.resolve_expr(f.mod, e.func, f.cls) if f.mod is not None else None
+            except Exception:
+                k = None
+            if isinstance(k, ast.Call) and (dotted(k.func) or "").endswith("NamedTuple") and len(k.args) == 2 and isinstance(k.args[1], (ast.List, ast.Tuple)):
+                # X = typing.NamedTuple("X", [("a", T), ...]): a record with those fields
+                fields = [el.elts[0].value for el in k.args[1].elts if isinstance(el, ast.Tuple) and el.elts and isinstance(el.elts[0], ast.Constant)]
+                vals = [f.fold(a) for a in e.args]
+                kw = {x.arg: f.fold(x.value) for x in e.keywords if x.arg}
+                if len(vals) > len(fields) or any(n not in fields for n in kw):
+                    raise Unfoldable(unparse(e))
+                for n_, v_ in zip(fields, vals):
+                    kw.setdefault(n_, v_)
+                if set(kw) != set(fields):
+                    raise Unfoldable(unparse(e))
+                return make_record(fields, [kw[n_] for n_ in fields])
+            if isinstance(k, ClassInfo) and (only is None or k.name in only):
+                args = [f.fold(a) for a in e.args]
+                kwargs = {x.arg: f.fold(x.value) for x in e.keywords if x.arg}
+                return construct(ctx, k, *args, hook=hook, **kwargs)
+        return NotImplemented
+
+    return hook
+
+
+def make_record(fields: Sequence[str], values: Sequence[Any]) -> Any:
+    """a named tuple value (attribute access by field name, positional access, equality as a tuple)"""
+
+    class Record(tuple):
+        _fields = tuple(fields)
+
+        def __getattr__(self, name: str) -> Any:
+            if name in type(self)._fields:
+                return self[type(self)._fields.index(name)]
+            raise AttributeError(name)
+
+    return Record(values)
